@@ -14,7 +14,8 @@ def run(tier, replay=None):
     subs = [b for b in bases.sub_bases() if 'a' in b[0]]    # parameter-free bases: see known finding under C13
     user = list(bases.USER_STYLE.items())
     if tier == "quick":
-        libs = [("core_maths", 3, None), ("core_maths", 4, None), ("core_maths", 5, None), ("ext_maths", 4, None), ("base_e_maths", 4, None)]
+        libs = [("core_maths", 3, None), ("core_maths", 4, None), ("core_maths", 5, None), ("ext_maths", 4, None), ("base_e_maths", 4, None),
+                ("keep_duplicates", 4, None)]        # the smallest shipped library in which check_results un-merges functions
         libs += [("verif_sub%d" % k, 4, subs[k]) for k in rng.sample(range(len(subs)), 2)]
         libs += [("verif_cube", 4, bases.USER_STYLE["verif_cube"])]
     else:
